@@ -69,7 +69,9 @@ pub fn sequences(max: usize) -> Vec<Vec<Outcome>> {
     res
 }
 
-pub fn cases(thorough: bool) -> Vec<(&'static str, Vec<Outcome>)> {
+/// The cases: command, scripted run outcomes, and whether the sanitize
+/// step that precedes a retry fails (hook H14).
+pub fn cases(thorough: bool) -> Vec<(&'static str, Vec<Outcome>, bool)> {
     let mut res = Vec::new();
     for cmd in COMMANDS {
         let max = match (*cmd, thorough) {
@@ -77,7 +79,15 @@ pub fn cases(thorough: bool) -> Vec<(&'static str, Vec<Outcome>)> {
             _ => 4,
         };
         for seq in sequences(max) {
-            res.push((*cmd, seq));
+            res.push((*cmd, seq, false));
+        }
+    }
+    // The same with a failing sanitize step, where a retry is involved.
+    for cmd in ["vrps", "server"] {
+        for seq in sequences(if thorough { 4 } else { 3 }) {
+            if seq.contains(&Outcome::Retry) {
+                res.push((cmd, seq, true));
+            }
         }
     }
     res
@@ -86,9 +96,24 @@ pub fn cases(thorough: bool) -> Vec<(&'static str, Vec<Outcome>)> {
 /// What the property allows: (max runs, must exit non-zero, may run forever).
 ///
 /// Outcomes beyond the script are successes.
-fn expectation(cmd: &str, seq: &[Outcome]) -> (usize, Option<bool>) {
+fn expectation(
+    cmd: &str, seq: &[Outcome], sanitize_fails: bool
+) -> (usize, Option<bool>) {
     let get = |i: usize| seq.get(i).copied().unwrap_or(Outcome::Ok);
     match cmd {
+        "vrps" if sanitize_fails => {
+            // If the cache cannot be sanitized the command may give up
+            // right away or still retry once: never more than two runs,
+            // and success only if a run succeeded.
+            match get(0) {
+                Outcome::Ok => (1, Some(true)),
+                Outcome::Fatal => (1, Some(false)),
+                Outcome::Retry => match get(1) {
+                    Outcome::Ok => (2, None),
+                    _ => (2, Some(false)),
+                }
+            }
+        }
         "vrps" => {
             // One retry at most.
             match get(0) {
@@ -122,7 +147,7 @@ fn expectation(cmd: &str, seq: &[Outcome]) -> (usize, Option<bool>) {
 /// The server's allowed behaviour as a state machine over the script:
 /// returns (runs until it must have shut down or None if it keeps running,
 /// the maximum number of retries after the initial run).
-fn server_expectation(seq: &[Outcome]) -> Option<usize> {
+fn server_expectation(seq: &[Outcome], _sanitize_fails: bool) -> Option<usize> {
     // Returns the number of runs after which the server must have exited,
     // or None if it legitimately keeps running.
     let get = |i: usize| seq.get(i).copied().unwrap_or(Outcome::Ok);
@@ -156,7 +181,7 @@ pub fn run_case(
     index: usize, thorough: bool, scratch: &Path
 ) -> RunResult {
     let all = cases(thorough);
-    let (cmd, seq) = all[index % all.len()].clone();
+    let (cmd, seq, sanitize_fails) = all[index % all.len()].clone();
     let _ = std::fs::remove_dir_all(scratch);
     std::fs::create_dir_all(scratch.join("cache")).unwrap();
     let exe = std::env::current_exe().unwrap();
@@ -189,6 +214,8 @@ pub fn run_case(
         .env("ROUTINATOR_VERIF_RUNS", script.join(","))
         .env("ROUTINATOR_VERIF_RUN_LOG", &run_log)
         .env("ROUTINATOR_VERIF_MAX_RUNS", max_runs.to_string())
+        .env("ROUTINATOR_VERIF_BUGGIFY",
+            if sanitize_fails { "engine.sanitize" } else { "" })
         .stdout(std::process::Stdio::null())
         .stderr(std::process::Stdio::null())
         .spawn().expect("spawn routinator");
@@ -212,7 +239,10 @@ pub fn run_case(
     let code = status.and_then(|s| s.code());
     let mut violations = Vec::new();
     let mut log = Vec::new();
-    let desc = format!("{cmd} with run outcomes [{}]", script.join(","));
+    let desc = format!(
+        "{cmd} with run outcomes [{}]{}", script.join(","),
+        if sanitize_fails { " and a failing sanitize step" } else { "" }
+    );
     let mut violation = |class: &str, msg: String| {
         log.push(format!("VIOLATION C32 {class}: {msg}"));
         violations.push(Violation {
@@ -220,7 +250,7 @@ pub fn run_case(
         });
     };
     if cmd == "server" {
-        match server_expectation(&seq) {
+        match server_expectation(&seq, sanitize_fails) {
             Some(must_exit_by) => {
                 // Must have shut down with an error after at most that
                 // many runs.
@@ -243,8 +273,13 @@ pub fn run_case(
                 }
             }
             None => {
-                // Keeps running until the harness limit (exit 97).
-                if code != Some(97) {
+                // Keeps running until the harness limit (exit 97). If the
+                // sanitize step fails, giving up at the first retryable
+                // failure after the initial run is fine as well.
+                let may_stop = sanitize_fails
+                    && seq.iter().skip(1).any(|o| *o == Outcome::Retry)
+                    && code != Some(0);
+                if code != Some(97) && !may_stop {
                     violation("server-stopped", format!(
                         "{desc}: server exited with {code:?} after {runs} \
                          runs although every failure was within the retry \
@@ -255,7 +290,7 @@ pub fn run_case(
         }
     }
     else {
-        let (max, exit_ok) = expectation(cmd, &seq);
+        let (max, exit_ok) = expectation(cmd, &seq, sanitize_fails);
         if code == Some(97) || status.is_none() {
             violation("loops", format!(
                 "{desc}: command still retrying after {runs} validation \
@@ -286,6 +321,7 @@ pub fn run_case(
     for o in &seq {
         stats.fault(o.name());
     }
+    if sanitize_fails { stats.fault("sanitize-fails"); }
     stats.signature = desc.clone();
     log.push(format!("{desc}: {runs} runs, exit {code:?}"));
     RunResult {
